@@ -108,13 +108,9 @@ theorem code_termParameters (c : Cfg) (args : List Num) (h : Num) :
   unfold Term_parameters.run
   cases args with
   | nil =>
-    by_cases hk : (!(isClose1 c.tol h || isClose1 c.tol (Dec.val c.d (Dec.fmt c.d h)))) = true
-    · simp [hk]
-    · simp [hk]
+    cases h1 : isClose1 c.tol h <;> cases h2 : isClose1 c.tol (Dec.val c.d (Dec.fmt c.d h)) <;> simp [h1, h2]
   | cons a r =>
-    by_cases hk : (!(isClose1 c.tol h || isClose1 c.tol (Dec.val c.d (Dec.fmt c.d h)))) = true
-    · simp [hk]
-    · simp [hk]
+    cases h1 : isClose1 c.tol h <;> cases h2 : isClose1 c.tol (Dec.val c.d (Dec.fmt c.d h)) <;> simp [h1, h2]
 
 theorem code_triangleParameters (c : Cfg) (left top right h : Num) :
     ∃ σ, Triangle_parameters.run c left top right h {} = .ok σ ∧
